@@ -311,6 +311,20 @@ def readRequestBody (cfg : Cfg) (flex : Bool) (t : Ty) (d : Dec) : Res Val :=
   (decode cfg t d).bind fun v d =>
   (discardAll d).bind fun _ d => .ok v d
 
+/-- `ReadRequest(r)`: size, api key, version, correlation id, client id, then the body of the request type `t` that
+(key, version) select -/
+def readRequest (cfg : Cfg) (flex : Bool) (t : Ty) (stream : Bytes) : Res (Int × Int × Int × Bytes × Val) :=
+  (readInt 4 ⟨stream, 4⟩).bind fun size d =>
+    if size < 0 then (if cfg.bounded then .error else .panic)
+    else
+      let d : Dec := ⟨d.inp, size.toNat⟩
+      (readInt 2 d).bind fun key d =>
+      (readInt 2 d).bind fun ver d =>
+      (readInt 4 d).bind fun corr d =>
+      (decode cfg (.string false flex) d).bind fun cid d =>
+      (readRequestBody cfg flex t d).bind fun v d =>
+        .ok (key, ver, corr, (match cid with | .str s => s | _ => []), v) d
+
 /-! ## what a round trip returns -/
 
 mutual
